@@ -28,6 +28,11 @@ for s in "$@"; do
     C07b) run C07b C07 ;;
     C12b) run C12b C12 ;;
     C15b) run C15b C15 ;;
+    C17c) run C17c C17 ;;
+    C09c) run C09c C09 ;;
+    C04c) run C04c C04 ;;
+    C05c) run C05c C05 ;;
+    C11c) run C11c C11 ;;
   esac
 done
 echo DONE >> /tmp/seed_results.txt
